@@ -127,7 +127,9 @@ template<Shape S, bool OPEN, int AK> struct Runner {
 	template<class R> static int keyOf(const R& r) { if constexpr (SI::isMap) return r.first; else return r.k; }
 	template<class It> std::string pos(const C& x, It it) {
 		if constexpr (SI::isOrdered) return std::to_string(std::distance(x.begin(), typename C::const_iterator(it)));
-		else { if (typename C::const_iterator(it) == x.end()) return "end"; return es(*it); } }
+		else { if (typename C::const_iterator(it) == x.end()) return "end";
+			if constexpr (S == UMMAP) return std::to_string((*it).first);   // which of several equivalent pairs: unspecified by std
+			else return es(*it); } }
 	std::string dump(const C& x) {
 		std::vector<std::pair<int, int>> v;
 		for (auto it = x.begin(); it != x.end(); ++it) { if constexpr (SI::isMap) v.emplace_back((*it).first, (*it).second); else v.emplace_back((*it).k, (*it).id); }
@@ -345,7 +347,7 @@ template<int AK> struct VecRunner {
 
 // ------------------------------------------------------------------ wrapper erase(first,last) with iterator kinds (momo only)
 #ifdef IMPL_MOMO
-template<Shape S, bool OPEN> static std::string runWE(int hm, const std::vector<std::pair<int, int>>& elems, int fpos, int ftrav, int lpos, int ltrav, bool orderOnly) {
+template<Shape S, bool OPEN> static std::string runWE(int hm, const std::vector<std::pair<int, int>>& elems, int fpos, int ftrav, int lpos, int ltrav, bool orderOnly, const std::vector<std::pair<int, int>>& expectOrder) {
 	typedef Runner<S, OPEN, 0> R; typedef typename R::C C;
 	std::unique_ptr<C> x(R::create(0, hm));
 	for (auto& e : elems) { if constexpr (S == UMMAP) x->emplace(e.first, e.second); else x->insert(R::mk(e.first, e.second)); }
@@ -353,6 +355,7 @@ template<Shape S, bool OPEN> static std::string runWE(int hm, const std::vector<
 	for (auto it = x->begin(); it != x->end(); ++it) { if constexpr (S == USET) order.emplace_back((*it).k, (*it).id); else order.emplace_back((*it).first, (*it).second); }
 	std::ostringstream out;
 	if (orderOnly) { for (size_t i = 0; i < order.size(); ++i) out << (i ? " " : "") << E2S(order[i].first, order[i].second); return out.str(); }
+	if (order != expectOrder) return "order-mismatch";
 	auto makeIt = [&](int p, int trav) -> typename C::const_iterator {
 		if (p < 0) return x->end();
 		if (trav) return std::next(static_cast<const C&>(*x).begin(), p);
@@ -405,14 +408,15 @@ int main()
 			std::string kind = head[1]; int hm = I(head, 2); std::vector<std::pair<int, int>> el; size_t i = 3;
 			for (; i < head.size() && head[i] != "/"; ++i) { int k = 0, v = 0; sscanf(head[i].c_str(), "%d:%d", &k, &v); el.emplace_back(k, v); }
 			int a = I(head, i + 1), b = I(head, i + 2), c = I(head, i + 3), d = I(head, i + 4); bool oo = (head[0] == "ord");
+			std::vector<std::pair<int, int>> eo; for (size_t j = i + 6; j < head.size(); ++j) { int k = 0, v = 0; sscanf(head[j].c_str(), "%d:%d", &k, &v); eo.emplace_back(k, v); }
 #if GROUP == 1
-			if (kind == "uset") res = runWE<USET, false>(hm, el, a, b, c, d, oo);
-			else if (kind == "uset_o") res = runWE<USET, true>(hm, el, a, b, c, d, oo);
-			else if (kind == "umap") res = runWE<UMAP, false>(hm, el, a, b, c, d, oo);
-			else if (kind == "umap_o") res = runWE<UMAP, true>(hm, el, a, b, c, d, oo);
+			if (kind == "uset") res = runWE<USET, false>(hm, el, a, b, c, d, oo, eo);
+			else if (kind == "uset_o") res = runWE<USET, true>(hm, el, a, b, c, d, oo, eo);
+			else if (kind == "umap") res = runWE<UMAP, false>(hm, el, a, b, c, d, oo, eo);
+			else if (kind == "umap_o") res = runWE<UMAP, true>(hm, el, a, b, c, d, oo, eo);
 #elif GROUP == 2
-			if (kind == "ummap") res = runWE<UMMAP, false>(hm, el, a, b, c, d, oo);
-			else if (kind == "ummap_o") res = runWE<UMMAP, true>(hm, el, a, b, c, d, oo);
+			if (kind == "ummap") res = runWE<UMMAP, false>(hm, el, a, b, c, d, oo, eo);
+			else if (kind == "ummap_o") res = runWE<UMMAP, true>(hm, el, a, b, c, d, oo, eo);
 #endif
 			puts(res.c_str()); continue;
 		}
